@@ -8,11 +8,12 @@ Line protocol for the engine domain (`sim`): one self-contained case per line.
 sim P <nP> G <nG> M <m…> [RL <role…>] MSL <k>
     V <nV> { <entity> <vtype> <unit> <default> <neutral> <end|-> <noStore> F <nF> { <start> <expr> } }
     I <nI> { <v> <period> <values…> }
-    R <nR> { calc <v> <period> | add <v> <period> | arm <id> | disarm <id> }
+    R <nR> { calc <v> <period> | add <v> <period> | arm <id> | disarm <id> | reads | badp <v> }
 expr ::= c <k> | v <w> <pt> <0|1> | o1 <o> expr | o2 <o> expr expr | f <id> expr
          (o1 codes: 0 neg, 1 sum over members, 2 projection, 3 nonzero, >= 100 scaling; role
           operations with role r = code % 10: 10+r sum(role), 20+r value_from_person(role),
-          30+r nb_persons(role), 40+r any(role))
+          30+r nb_persons(role), 40+r any(role), 50+r max(role), 60+r min(role), 70+r all(role);
+          for 50-79 r = 9 means no role filter; max/min of a household without holder = 0, all = 1)
 pt   ::= same | this_year | first_month | last_month | last_year | off:<n>:<unit> | fx:<period>
 ```
 Answer: `<res>;<res>;…|<known entries>` with res = `ok:<v,…>` | `CYCLE` | `ERR` | `FUEL`, known =
@@ -129,6 +130,7 @@ inductive Req
   | arm (id : Nat)
   | disarm (id : Nat)
   | reads
+  | badp (v : Nat)        -- a top-level request whose period text cannot be parsed
 
 def pReq : Parser Req
   | "calc" :: r => do let (v, r) ← pNat r; let (p, r) ← pPeriod r; pure (.calc v p, r)
@@ -136,6 +138,7 @@ def pReq : Parser Req
   | "arm" :: r => do let (i, r) ← pNat r; pure (.arm i, r)
   | "disarm" :: r => do let (i, r) ← pNat r; pure (.disarm i, r)
   | "reads" :: r => some (.reads, r)
+  | "badp" :: r => do let (v, r) ← pNat r; pure (.badp v, r)
   | _ => none
 
 structure SimCase where
@@ -243,6 +246,8 @@ def runCase (c : SimCase) : String :=
     | .arm i :: r => go (i :: armed) s ("-" :: out) r
     | .disarm i :: r => go (armed.filter (· ≠ i)) s ("-" :: out) r
     | .reads :: r => go armed s (showReads (elabSys c.decl armed) s :: out) r
+    -- `periods.period(text)` raises before the request starts: an error, and nothing changes
+    | .badp _ :: r => go armed s ("ERR" :: out) r
     | .calc v p :: r =>
       let sys := elabSys c.decl armed
       let (res, s') := doCalc sys s (requestNode c.decl v p)
